@@ -8,7 +8,7 @@ MSM_NUMBERS = [n for n in SUPPORTED if 1071 <= n <= 1137]
 
 
 def gen_for(ctx):
-    return Gen(ctx.root)
+    return Gen(ctx.root, ctx.repo)
 
 
 class MsgProp(Prop):
@@ -138,7 +138,8 @@ class C02(MsgProp):
         r = ctx.rng("gen")
         thorough = ctx.tier == "thorough"
         for n in g.numbers:
-            Ls = [2, 3, 8, 20, 64, 200, 1023] + [r.randrange(2, 1024) for _ in range(2 if not thorough else 12)]
+            Ls = [2, 3, 8, 20, 64, 200, 1023] + [r.randrange(2, 1024) for _ in range(2 if not thorough else 12)] + \
+                dict_ints(2, 1023, ctx.repo, 3 if not thorough else 40, r) + new_ints(2, 1023, ctx.repo)
             for L in Ls:
                 for style in ("ones", "zeros", "random", "sparse") if (thorough or L in (2, 20, 200)) else ("random", "ones"):
                     yield ("DEC " + hx(mk_frame(hostile_payload(r, n, L, style))), "hostile-" + style, True)
@@ -242,7 +243,7 @@ class C14(MsgProp):
         for n in range(4096):
             yield ("DEC " + hx(mk_frame(hostile_payload(r, n, 2, "zeros"))), "two-bytes", True)
         nums = list(g.numbers) + ([x for x in range(4096)] if ctx.tier == "thorough" else
-                                  [r.randrange(4096) for _ in range(150)] + [0, 1000, 1018, 1028, 1036, 1040, 1043, 1047,
+                                  [r.randrange(4096) for _ in range(150)] + dict_ints(0, 4095, ctx.repo, 120, r) + new_ints(0, 4095, ctx.repo) + [0, 1000, 1018, 1028, 1036, 1040, 1043, 1047,
                                                                              1056, 1069, 1070, 1078, 1138, 1229, 1231, 1299, 1305, 4095])
         for n in nums:
             for L, style in ((5, "random"), (300, "zeros"), (300, "ones"), (700, "random")):
